@@ -82,7 +82,7 @@ func VerifContainsFile(files []string, file string) bool { return containsFile(f
 
 func init() {
 	Registry["C19"] = func(c *Ctx) {
-		c.R.Rule = "graph families: every DAG on <=5 (quick) / <=6 (thorough) nodes (all subsets of the edges i->j, i<j), ladders (layered complete-bipartite) of width 2 and 3 and depth 1..12 / 1..16, dense DAGs (all i<j edges) on 2..14 nodes, chains with the node count of every ladder and dense DAG. Operations (each on a fresh graph, through the real code instrumented with function-entry counters): SelectTargetsForBuild of the sinks, GetDescendants(source), GetAncestors(sink), failure propagation (Walker.Walk, source fails, failFast=false), BuildGraph, cycle detection, output-conflict detection, and the graph part of deps -t / rdeps -t / changes --dependents=transitive. Command level: the REAL binary built from the same instrumented sources runs changes --dependents=transitive|none, deps [-t], rdeps [-t], list, owners, check, build <top> and build //..., the transitive queries with --target-type / --tag filters that nothing matches, and build / check with --all-platforms on ladder workspaces (3x14, 2x20; thorough 3x24, 4x12) and chains inside a git repository whose bottom-layer input is modified; the process aborts as soon as the number of counted function entries exceeds 4*(8(V+E)(V+1)+64). An evaluation is one (operation, graph) pair. A graph is non-trivial when some node has at least two distinct paths to another node (it contains a diamond)."
+		c.R.Rule = "graph families: every DAG on <=5 (quick) / <=6 (thorough) nodes (all subsets of the edges i->j, i<j), ladders (layered complete-bipartite) of width 2 and 3 and depth 1..12 / 1..16, dense DAGs (all i<j edges) on 2..14 nodes, chains with the node count of every ladder and dense DAG. Operations (each on a fresh graph, through the real code instrumented with function-entry counters): SelectTargetsForBuild of the sinks, GetDescendants(source), GetAncestors(sink), failure propagation (Walker.Walk, source fails, failFast=false), BuildGraph, cycle detection, output-conflict detection, and the graph part of deps -t / rdeps -t / changes --dependents=transitive. Command level: the REAL binary built from the same instrumented sources runs changes --dependents=transitive|none, deps [-t], rdeps [-t], list, owners, check, build <top> and build //..., the transitive queries with --target-type / --tag filters that nothing matches, and build / check with --all-platforms on ladder workspaces (3x14, 2x20; thorough 3x24, 4x12) and chains inside a git repository whose bottom-layer input is modified; the process aborts as soon as the number of counted function entries exceeds 4*(8(V+E)(V+1)+64). An evaluation is one (operation, graph) pair. A graph is non-trivial when some node has at least two distinct paths to another node (it contains a diamond). The command-level part also builds with a failing bottom target (keep-going), once with the ladder selected and once with only the failing target selected (its dependants unselected)."
 		c.R.Assume(
 			"cost = number of entries of instrumented functions and of the bodies of their for / range loops (all functions of internal/dag, internal/selection, internal/analysis and the helpers of cmds/deps.go, rdeps.go, changes.go); wall-clock time is never measured",
 			"polynomial bound: calls(f,G) <= 8*(V+E)*(V+1)+64; chain comparison: calls(f,G) <= 4*calls(f, chain with the same node count) + 8*(V+E) for ladders and dense DAGs",
